@@ -180,6 +180,7 @@ func (te *tableEngine) CreateTable(tableSetting TableSetting) (*Table, error) {
 	te.ogm = open_game_manager.NewOpenGameManager(open_game_manager.OpenGameOption{
 		Timeout: 2,
 		OnOpenGameReady: func(state open_game_manager.OpenGameState) {
+			te.verifHook("gate.fire")
 			// 小於等於一個人，不開局
 			if len(state.Participants) <= 1 {
 				return
